@@ -10,7 +10,8 @@ FRAG_PRICES = [1.01, 1.5, 2.0, 3.0, 11.0, 1000.0]
 
 
 def resting_limit(c, tag, fl, market, strategy, bet_id, side=None, price=None, selection_id=1, status=None,
-                  persistence=None, max_frags=2, allow_cancelled=True, price_values=None, client=None, trade=None):
+                  persistence=None, max_frags=2, allow_cancelled=True, price_values=None, client=None, trade=None,
+                  statuses=None, min_frags=0):
     """a real LIMIT order resting at the exchange in an arbitrary state satisfying Inv:
     buckets >= 0 and 2dp, size_matched = sum(fragments), sum(buckets) <= size, remaining > 0"""
     side = side or c.choose("%s_side" % tag, ["BACK", "LAY"])
@@ -20,7 +21,7 @@ def resting_limit(c, tag, fl, market, strategy, bet_id, side=None, price=None, s
     persistence = persistence or c.choose("%s_persistence" % tag, ["LAPSE", "PERSIST", "MARKET_ON_CLOSE"])
     order = cm.mk_limit(strategy, side, price, size, selection_id=selection_id, persistence=persistence, trade=trade)
     sim = order.simulated
-    nf = c.choose("%s_fragments" % tag, list(range(max_frags + 1)))
+    nf = c.choose("%s_fragments" % tag, list(range(min_frags, max_frags + 1)))
     frags = []
     for i in range(nf):
         fp = c.pick("%s_f%dp" % (tag, i), FRAG_PRICES)
@@ -34,7 +35,7 @@ def resting_limit(c, tag, fl, market, strategy, bet_id, side=None, price=None, s
         sim.size_matched, sim.average_price_matched = wap(frags)
     sim.size_cancelled = canc
     sim.market_version = market.market_book.version
-    status = status or c.choose("%s_status" % tag, LIVE_AT_EXCHANGE)
+    status = status or c.choose("%s_status" % tag, statuses or LIVE_AT_EXCHANGE)
     cm.place_resting(fl, market, strategy, order, bet_id, status=status, client=client)
     order.responses.placed(cm.NS(bet_id=str(bet_id), status="SUCCESS"))
     d = dict(order=order, side=side, price=price, size=size, persistence=persistence, matched=m, cancelled=canc, status=status,
